@@ -212,6 +212,24 @@ def check(tier: str) -> Result:
                 ok = dec == [("MID", "ones"), ("LAST", "zeros"), ("LAST", "ones"), ("LAST", "zeros")]
                 why = f"decoded {dec}"
                 last_conditions(ea)  # validates index form a + 2*b
+                # the weight-2 bit (truncation branch) must be the time-limit test, the weight-1 bit must not be
+                from ..normal import ge_form
+                p = strip_cast(ts.args[1])
+                bits = {}
+                for x in (p.args[1], p.args[2]):
+                    x = strip_cast(x)
+                    if x.kind == "bin" and x.args[0] == "*":
+                        l, r_ = strip_cast(x.args[1]), strip_cast(x.args[2])
+                        bits[2] = r_ if l.kind == "const" else l
+                    else:
+                        bits[1] = x
+                T_ = vfg.mk_attr(ea.self_t, "time_limit")
+                def is_limit(b):
+                    g = ge_form(b) if b is not None else None
+                    return g is not None and g[1] is T_
+                wired = is_limit(bits.get(2)) and not is_limit(bits.get(1))
+                ok = ok and wired
+                why += f"; weight-2 bit is the time-limit test: {is_limit(bits.get(2))}, weight-1 bit is not: {not is_limit(bits.get(1))}"
             res.add("C03.R5", site, fn, "switch table 00 MID / 01 termination / 10 truncation / 11 termination", ok, why)
     res.analysed = {"environments": len(analyses(tree)), "timestep_leaves": n_leaves,
                     "functions_in_closures": sum(len(e.reset_funcs) + len(e.step_funcs) for e in analyses(tree))}
